@@ -3,13 +3,16 @@
   the synchronisation skeleton extracted from the source on every run (Khttp/Gen/Skeleton.lean,
   tools/extract_skeleton.py) must be the one whose actions the model's steps abstract.
 
-    worker:  spawn { loop { { lock recv } match { run break } } }
+    worker:  spawn loop lock recv unlock run        (canonical form: `unlock` = the closing brace of the block in which the
+                                                     guard lives; other braces and `match` / `break` are not part of it, so
+                                                     `match msg {Ok(j) => j.run(), Err(_) => break}` and
+                                                     `let Ok(j) = msg else { break }; j.run()` give the same skeleton)
              `acquire`            = lock
              `recvJob` / `recvDisconnected` = recv, and the closing brace of the inner block = the
                                     guard is dropped (lock released) BEFORE `run`
              `finish`             = run returns;  `break` = worker exits after recvDisconnected
     execute: send                 = `submit`
-    drop:    drop_sender for { { join } }   = `dropSender`, then `join k` in spawn order
+    drop:    drop_sender for join           = `dropSender`, then `join k` in spawn order
 
   Moving `run` inside the lock scope, dropping the sender after the joins, or removing the join
   changes the extracted list and this obligation stops checking.
@@ -19,9 +22,9 @@ import Khttp.Model.Pool
 namespace Khttp
 
 def Pool.expectedWorker : List String :=
-  ["spawn", "{", "loop", "{", "{", "lock", "recv", "}", "match", "{", "run", "break", "}", "}", "}"]
+  ["spawn", "loop", "lock", "recv", "unlock", "run"]
 def Pool.expectedExecute : List String := ["send"]
-def Pool.expectedDrop : List String := ["drop_sender", "for", "{", "{", "join", "}", "}"]
+def Pool.expectedDrop : List String := ["drop_sender", "for", "join"]
 
 theorem C13_skeleton_worker : Gen.poolWorker = Pool.expectedWorker := by decide
 theorem C13_skeleton_execute : Gen.poolExecute = Pool.expectedExecute := by decide
